@@ -47,6 +47,10 @@ def run(chk, replay=None):
         summ = vlib.replay_cases(chk, "MarshalHistory", vlib.cfg("C03_hist.cfg", MAXLEN=4 if tier == "quick" else 5, ALLLEN=3 if tier == "quick" else 4),
                                  "c03.hist", "history_replay")
         if not summ.get("marshal_results_judged"):
+            # none of the 115 freshly constructed messages could be encoded even once: that is the library's behaviour, not an
+            # infrastructure problem
+            chk.fail("message.Message.Marshal", "no-fresh-message-encodes", "Marshal failed for every freshly constructed message of every structure "
+                     "(the history replay had no reference encoding to compare with)", None)
             raise vlib.Infra("no Marshal result was judged in the history replay")
         # ---- recorded programs -> TLC
         trace, res = os.path.join(d, "trace.ndjson"), os.path.join(d, "rec.res")
